@@ -1400,11 +1400,15 @@ def mixed_generation_case(ctx, rng, root, trial):
     rw = '%s/mix%d' % (root, trial)
     cls = 'LP'[trial % 2]
     ca, cb = gen_mixed_pair(rng)
+    if trial < 4:       # the plain byte swap between a legacy and a V2 device first
+        ca = int.from_bytes(bytes(rng.sample(range(1, 256), 4)), 'little')
+        cb = int.from_bytes(ca.to_bytes(4, 'little')[::-1], 'little')
     va, vb = [(3, 4), (4, 3), (1, 5), (4, 4), (3, 3), (3, 4)][trial % 6]
     devs = {'A': (va, ca, device_table(rng, cls, rng.choice([1, 2, 3]))), 'B': (vb, cb, device_table(rng, cls, rng.choice([1, 2, 4])))}
     seq = ['A', 'B', 'A', 'B'] if trial % 4 < 2 else ['B', 'A', 'B', 'A']
     cache = None
     seen = set()
+    misnamed = None
     for i, who in enumerate(seq):
         v, c, elems = devs[who]
         if cache is None or rng.random() < 0.6:
@@ -1420,17 +1424,21 @@ def mixed_generation_case(ctx, rng, root, trial):
             ctx.witness('mixed-generation-wrong-table', 'device %s (protocol %d, checksum %08X) got a table that is not its own after a device of '
                         'protocol %d with checksum %08X used the same cache' % (who, v, c, devs['B' if who == 'A' else 'A'][0], devs['B' if who == 'A' else 'A'][1]),
                         inp, got=str(table_fields(toc))[:300], want=str(want)[:300])
+            if misnamed is not None:
+                ctx.witness('stored-under-other-checksum', misnamed[0], misnamed[1])
             return
         expect = 0 if who in seen else len(elems)
         if reqs != expect:
             ctx.witness('mixed-generation-requests', 'device %s (protocol %d, checksum %08X): %d element requests, expected %d (%s)'
                         % (who, v, c, reqs, expect, 'warm' if who in seen else 'cold'), inp)
             return
-        if not os.path.isfile('%s/%08X.json' % (rw, c)):
-            ctx.witness('stored-under-other-checksum', 'after the download for announced checksum %08X (protocol %d) there is no %08X.json; directory: %s'
-                        % (c, v, c, sorted(os.listdir(rw))), inp)
-            return
+        if not os.path.isfile('%s/%08X.json' % (rw, c)) and misnamed is None:
+            misnamed = ('after the download for announced checksum %08X (protocol %d) there is no %08X.json; directory: %s'
+                        % (c, v, c, sorted(os.listdir(rw))), inp)       # reported after the table checks of the whole sequence
         seen.add(who)
+    if misnamed is not None:
+        ctx.witness('stored-under-other-checksum', misnamed[0], misnamed[1])
+        return
     ctx.count('search:mixed-generation')
 
 
